@@ -121,6 +121,14 @@ func (s *Sim) makeRelay(appKey int, chain string, sessionHeight int64, servicerK
 		r.Proof.Blockchain = "00aa"
 	case "session_height":
 		r.Proof.SessionBlockHeight = sessionHeight + s.bpsAt(s.drv.Height)
+	case "session_height_inside":
+		// the last block of the previous session: within the height range a node with a session
+		// sync allowance accepts, but no session starts there
+		if s.bpsAt(s.drv.Height) >= 2 && sessionHeight > 2 {
+			r.Proof.SessionBlockHeight = sessionHeight - 1
+		} else {
+			r.Proof.SessionBlockHeight = sessionHeight + s.bpsAt(s.drv.Height)
+		}
 	case "meta_height":
 		r.Meta.BlockHeight = s.drv.Height + int64(s.cfg.ClientBlockSyncAllowance) + 5
 	case "servicer":
@@ -158,7 +166,7 @@ func (s *Sim) evidenceCount(servicerKey int, header pc.SessionHeader) (int64, bo
 
 // ---------------------------------------------------------------- dispatch + relays (C33, C35)
 
-var relayMutations = []string{"token_sig", "client_sig", "client_sig_other_key", "request_hash", "servicer", "chain", "session_height", "meta_height", "unstaked_app"}
+var relayMutations = []string{"token_sig", "client_sig", "client_sig_other_key", "request_hash", "servicer", "chain", "session_height", "meta_height", "unstaked_app", "session_height_inside"}
 
 func (s *Sim) doRelays(st *Step) {
 	if s.committedView == nil {
